@@ -69,6 +69,9 @@ func c13(w *core.World, r *core.Report) {
 	r.Rule("R13.5", "replay-unit parser drops a decoded command only for documented reasons (all loop paths)", 1)
 	ruleUnitParserRemovals(w, r)
 
+	r.Rule("R13.7", "with bidirectional sync on, data reaches the target only through the marker writers: every unmarked replay path is entered only when bisyncEnabled() is false", 3)
+	ruleMarkerPathSelection(w, r)
+
 	r.Rule("R13.6", "transaction buffer: fresh at MULTI, dropped after EXEC, append-only; a mirrored transaction emits nothing", 4)
 	ruleTxnBuffer(w, r)
 }
@@ -332,11 +335,36 @@ func ruleUnitParserRemovals(w *core.World, r *core.Report) {
 			return
 		}
 		// kept: appended to the transaction buffer, or emitted as a unit
+		built := false
 		for _, s := range pathSites(p) {
-			if strings.HasSuffix(s.Name, "buildBisyncReplayUnitWithMode") {
-				keeps++
-				return
+			if !strings.HasSuffix(s.Name, "buildBisyncReplayUnitWithMode") {
+				continue
 			}
+			built = true
+			// the unit that was built goes somewhere (emitted, queued, sent) before the next command is read
+			tuple := s.Value()
+			for _, in := range p.Instrs {
+				var ops []ssa.Value
+				switch x := in.(type) {
+				case *ssa.Call:
+					ops = x.Call.Args
+				case *ssa.Send:
+					ops = []ssa.Value{x.X}
+				case *ssa.Store:
+					ops = []ssa.Value{x.Val}
+				}
+				for _, o := range ops {
+					if ex, ok := core.Unwrap(p.Resolve(o)).(*ssa.Extract); ok && ex.Tuple == tuple && ex.Index == 0 {
+						keeps++
+						return
+					}
+				}
+			}
+		}
+		if built {
+			pos := lastDecisionPos(p)
+			bad[w.Pos(pos)] = pos
+			return
 		}
 		for _, in := range p.Instrs {
 			if c, ok := in.(*ssa.Call); ok {
@@ -494,4 +522,96 @@ func ruleTxnBuffer(w *core.World, r *core.Report) {
 		}
 		r.Check(ok, "isBisyncMirroredTransaction/first-command", g.Pos(), "a mirrored transaction is recognised by its first command only")
 	}
+}
+
+
+// ---------------------------------------------------------------- R13.7 the marker writers are the only writers while bidirectional sync is on
+
+// ruleMarkerPathSelection: the plain snapshot replay (rdbReplay) and the plain
+// command sender (parseAofCommand / sendCmdsBatch) write without the marker.
+// Whatever they write is taken for a client write by the opposite link and
+// sent back. Every place that starts one of them must have established that
+// bidirectional sync is off, and by nothing weaker (for instance 'off, or the
+// output cannot run transactions').
+func ruleMarkerPathSelection(w *core.World, r *core.Report) {
+	isEnabled := func(v ssa.Value) bool {
+		c, ok := core.Unwrap(v).(*ssa.Call)
+		return ok && core.ResolveCall(c).Name == "(*syncer.RedisOutput).bisyncEnabled"
+	}
+	n := 0
+	for _, target := range []string{"(*syncer.RedisOutput).rdbReplay", "(*syncer.RedisOutput).parseAofCommand", "(*syncer.RedisOutput).sendCmdsBatch"} {
+		tf := fn(w, r, target)
+		if tf == nil {
+			continue
+		}
+		for _, site := range callSitesOf(w, tf) {
+			n++
+			anchor := site
+			g := site.Parent()
+			verdict := ""
+			for {
+				all, paths := true, 0
+				okEnum := core.EnumPathsN(g.Blocks[0], 0, 200000, 1, func(p *core.Path) {
+					on := false
+					for _, in := range p.Instrs {
+						if in == anchor {
+							on = true
+						}
+					}
+					if !on {
+						return
+					}
+					paths++
+					if !pathAssumed(p, isEnabled, false) {
+						all = false
+					}
+				})
+				if !okEnum {
+					verdict = "undecided"
+					break
+				}
+				if all && paths > 0 {
+					verdict = "ok"
+					break
+				}
+				// a closure: judged where it is created
+				if g.Parent() == nil {
+					verdict = "bad"
+					break
+				}
+				var mk ssa.Instruction
+				for _, in := range core.OwnInstrs(g.Parent()) {
+					if mc, ok := in.(*ssa.MakeClosure); ok && mc.Fn == ssa.Value(g) {
+						mk = in
+					}
+				}
+				if mk == nil {
+					verdict = "bad"
+					break
+				}
+				anchor, g = mk, g.Parent()
+			}
+			name := shortName(core.FuncName(site.Parent()))
+			if site.Parent().Parent() != nil {
+				name = shortName(core.FuncName(outermost(site.Parent()))) + "$closure"
+			}
+			construct := name + "/" + shortName(target) + "-only-when-bisync-off"
+			switch verdict {
+			case "undecided":
+				r.Undecided(construct, site.Pos(), "too many paths")
+			default:
+				r.Check(verdict == "ok", construct, site.Pos(), "the unmarked replay path %s can be started while bidirectional sync is enabled: what it writes carries no marker, the opposite link takes it for client writes and sends it back", shortName(target))
+			}
+		}
+	}
+	if n == 0 {
+		r.Fail("marker-path-selection", token.NoPos, "no start of an unmarked replay path found")
+	}
+}
+
+func outermost(f *ssa.Function) *ssa.Function {
+	for f.Parent() != nil {
+		f = f.Parent()
+	}
+	return f
 }
